@@ -30,6 +30,7 @@ def observe_supp(ctx, src, reads, binds):
     scope = extract_scope(source, proj)
     by_pos_read = {(l, c): s for s, (l, c, _n) in reads.items()}
     by_line_name = {(l, n): s for s, (l, c, n) in binds.items()}
+    by_pos_bind = {(l, c): s for s, (l, c, n) in binds.items()}
     seen = {}
     unknown = []
     for node in ast.walk(source.tree):
@@ -52,7 +53,7 @@ def observe_supp(ctx, src, reads, binds):
                     out.add(None)
                     continue
                 da = getattr(a, 'declared_at', None)
-                b = by_line_name.get((da[0], a.name)) if da else None
+                b = (by_pos_bind.get(tuple(da)) or by_line_name.get((da[0], a.name))) if da else None
                 if b is None:
                     unknown.append((site, repr(a)))
                 else:
@@ -68,7 +69,7 @@ def observe_supp(ctx, src, reads, binds):
                 (e02 if code == 'E02' else e42).add(s)
         elif code in ('W01', 'W02'):
             nm = msg.split(': ')[1]
-            b = by_line_name.get((l, nm))
+            b = by_pos_bind.get((l, c)) or by_line_name.get((l, nm))
             if b is not None:
                 unused.add(b)
     return {'seen': seen, 'unknown_alt': unknown, 'e02': e02, 'e42': e42, 'unused': unused, 'lint': [r[:4] for r in res]}
@@ -315,9 +316,16 @@ def corpus_trees():
     ]
 
 
-def analyse_program(ctx, body, scope):
-    src, reads, binds = pygen.render_plain(body, scope)
+def analyse_program(ctx, body, scope, layout_seed='auto'):
+    """Render (optionally in a varied layout, identified by its seed), analyse with supp.
+    Returns (source, reads, binds, observation); the layout seed used is in obs['layout_seed']."""
+    import random as _random
+    if layout_seed == 'auto':
+        layout_seed = ctx.rng.randrange(1 << 30) if ctx.rng.random() < 0.5 else None
+    lay = _random.Random(layout_seed) if layout_seed is not None else None
+    src, reads, binds = pygen.render_plain(body, scope, lay)
     obs = observe_supp(ctx, src, reads, binds)
+    obs['layout_seed'] = layout_seed
     return src, reads, binds, obs
 
 
@@ -351,6 +359,7 @@ def api_sample(ctx, src, reads, binds, obs, k):
     proj, d = project(ctx)
     fn = os.path.join(d, 'gen_case.py')
     by_line_name = {(l, n): s for s, (l, c, n) in binds.items()}
+    binds_by_pos = {(l, c): s for s, (l, c, n) in binds.items()}
     bad = []
     sites = [s for s in sorted(reads) if obs['seen'].get(s) not in (None, 'E42')]
     ctx.rng.shuffle(sites)
@@ -382,7 +391,7 @@ def api_sample(ctx, src, reads, binds, obs, k):
         for x in flat:
             if x['file'] == fn:
                 # alternatives are identified by (line, name)
-                got.add(by_line_name.get((x['loc'][0], name), ('?', tuple(x['loc']))))
+                got.add(binds_by_pos.get(tuple(x['loc'])) or by_line_name.get((x['loc'][0], name), ('?', tuple(x['loc']))))
         want = set(a for a in alts if a is not None)
         if got != want:
             bad.append(('location', s, sorted(map(str, got)), sorted(want)))
